@@ -90,6 +90,12 @@ func c15model(stmts []c15stmt, ex c15exit) (src []string, out []string, oc c15ou
 			}
 		case "deferF":
 			src = append(src, fmt.Sprintf(`defer "D%d".p if false`, s.id))
+		case "deferExpr":
+			// the deferred expression is not a call at its top: a conditional, an array, an assignment, an interpolation
+			src = append(src, fmt.Sprintf([]string{`defer ("D%d".p if true else 0)`, `defer ["D%d".p]`, `defer dx := "D%d".p`, `defer "#{"D%d".p}"`, `defer (0 || "D%d".p)`}[s.id%5], s.id))
+			if !exited {
+				registered = append(registered, reg{text: fmt.Sprintf("D%d", s.id)})
+			}
 		case "deferGT":
 			// the guard is true when the defer is reached and false afterwards: the defer was registered
 			src = append(src, fmt.Sprintf("g%d := true", s.id), fmt.Sprintf(`defer "D%d".p if g%d`, s.id, s.id), fmt.Sprintf("g%d := false", s.id))
@@ -239,11 +245,11 @@ func runC15(w *fw.W) {
 		}
 	}
 	// guards whose value changes after the defer statement / whose evaluation is visible (sampled family)
-	for _, nk := range []string{"deferGT", "deferGF", "deferGM"} {
+	for _, nk := range []string{"deferGT", "deferGF", "deferGM", "deferExpr"} {
 		for _, pos := range []int{0, 1, 2} {
 			for _, k := range kinds {
 				l := []c15stmt{{kind: k, id: 1}, {kind: "mark", id: 2}, {kind: "defer", id: 3}}
-				l = append(l[:pos], append([]c15stmt{{kind: nk, id: 4}}, l[pos:]...)...)
+				l = append(l[:pos], append([]c15stmt{{kind: nk, id: 4 + pos + len(layouts)%5}}, l[pos:]...)...)
 				layouts = append(layouts, l)
 			}
 		}
